@@ -78,6 +78,10 @@ var zzBreakages = []zzBreakage{
 	{"redeclaration of a parameter", []string{"print n", "n := 5", "print n"}, "func"},
 	{"redeclaration of a handler parameter", []string{"print k", "k := \"x\"", "print k"}, "handler"},
 	{"unreachable code", []string{"return 1", "print 2"}, "func funcif"},
+	{"unreachable code after a comment line", []string{"return 1", "// note", "print 2"}, "func funcif"},
+	{"unreachable code after a blank line", []string{"return 1", "", "print 2"}, "func funcif"},
+	{"unreachable code after break and a comment line", []string{"break", "// note", "", "print 2"}, "loop handlerloop procwhile"},
+	{"unreachable code after a bare return and a blank line", []string{"return", "", "// note", "print 2"}, "proc handler procwhile handlerloop"},
 	{"unreachable code after break", []string{"break", "print 2"}, "loop handlerloop procwhile"},
 	{"break outside loop", []string{"break"}, "top-early func proc handler if top-late funcif"},
 	{"value returned from handler", []string{"return 1"}, "handler handlerloop"},
